@@ -38,6 +38,7 @@ BEExplains(cfg, s, c, r) ==
            /\ r.pages = s /\ r.npages = (Len(s) + 4) \div 5     \* iter().skip(5p).take(5), p = 0, 1, ...
            /\ r.step3 = StepSeq(s, 3)
            /\ r.last = (IF s = << >> THEN -1 ELSE s[Len(s)]) /\ r.count = Len(s)
+           /\ r.oldlen = Len(s) /\ r.is_empty = (IF s = << >> THEN 1 ELSE 0)    \* deprecated len(), is_empty()
       [] OTHER -> FALSE
 BEAfter(cfg, s, c) ==
     CASE c.op = "push"        -> Append(s, Masked(c.a.v, cfg.w))
@@ -63,6 +64,7 @@ SIExplains(cfg, s, c, r) ==
            /\ r.gets = s /\ r.nones = 0          \* get(i) is Some(vec[i]) for every i < len
            /\ r.beyond_none = 1                  \* get(len) is None
            /\ r.nth_nones = 9 /\ r.step3 = StepSeq(s, 3)     \* the iterator through nth / step_by
+           /\ r.is_empty = (IF s = << >> THEN 1 ELSE 0)
       [] OTHER -> FALSE
 SIAfter(cfg, s, c, r) ==
     CASE c.op = "from_elem" -> IF r.st = "ok" THEN [x \in 1..c.a.n |-> c.a.v] ELSE s
